@@ -26,6 +26,7 @@ def check(model, R, tier):
                'per-element values of activations and losses')
     check_bn_form(model, R)
     check_enum(model, R)
+    check_enum_ctor(model, R)
     check_plumb(model, R)
     from sa.props.c12 import check_super_roles
     check_super_roles(model, R, 'C06')
@@ -227,6 +228,41 @@ def check_enum(model, R):
         ok = ok and len(rec) == 1 and [a.canon() if isinstance(a, P) else a for a in rec[0]] == f.pos_params[1:3]
         R.ob('C06.ENUM', f.qualname, 'reduction=%r -> %s' % (red, [(k, v.canon() if isinstance(v, P) else v) for k, v in got]), ok,
              'documented: %s of the per-element loss forward(y_pred, y_true)' % ('a ValueError (a misspelt reduction must not silently return the unreduced loss)' if w == 'raise' else w.canon()), f.loc)
+
+
+def check_enum_ctor(model, R):
+    """the constructor of Loss (and of every subclass that takes `reduction`) stores the documented reduction values as given, so that the dispatch of __call__
+    (C06.ENUM, evaluated per value of self.reduction) is the dispatch on the user's argument"""
+    from sa.rules_modtree import World, MObj
+    from sa.report import Incomplete
+    R.rule('C06.ENUM', 'the Loss constructors store reduction in {None, \'none\', \'mean\', \'sum\'} unchanged [constructor evaluated per value]', floor=1)
+    base = model.cls('synapgrad.nn.losses.Loss')
+    for cls in [base] + [c for c in model.subclasses('synapgrad.nn.losses.Loss')]:
+        ini = model.find_method(cls, '__init__')
+        if ini is None or 'reduction' not in ini.params:
+            continue
+        bad = []
+        for val in (None, 'none', 'mean', 'sum'):
+            w = World(model)
+            ob = MObj(w, 'loss', cls, initialised=False)
+            args = {ini.pos_params[0]: ob, 'reduction': val}
+            for p_ in ini.params:
+                if p_ not in args and p_ not in ini.defaults():
+                    args[p_] = P.atom(p_)
+            try:
+                outs = w.pe().paths(ini, args, max_paths=32)
+            except Incomplete as u:
+                bad.append('reduction=%r: %s' % (val, u))
+                continue
+            done = [o for o in outs if o.kind in ('fall', 'return')]
+            if len(done) != 1 or len(outs) != 1:
+                bad.append('reduction=%r: paths %s' % (val, [o.kind for o in outs]))
+                continue
+            got = ob.attrs.get('reduction', '<unset>')
+            if not (got is val or got == val):
+                bad.append('reduction=%r is stored as %r' % (val, got))
+        R.ob('C06.ENUM', ini.qualname, 'self.reduction after %s(reduction=v) for v in None / none / mean / sum' % cls.name, not bad,
+             'the constructor must keep the documented reduction values as given (None means no reduction): %s' % bad[:2], ini.loc)
 
 
 def check_plumb(model, R):
